@@ -12,6 +12,7 @@ from vlib import ref_quadtree as rq
 
 PROPERTY = "C17"
 LEVEL = "exploration"
+OPTIMIZED_SAMPLE = (5, 40)  # cases repeated under python -O (quick, thorough)
 JOBS = 12
 CASE_TIMEOUT = 600
 EXTS = ("png", "jpg", "npy", "fits")
